@@ -147,6 +147,11 @@ func (x *Exec) havocLoop(fr *Frame, st *State, h *ssa.BasicBlock, body map[*ssa.
 				if _, isGo := ins.(*ssa.Go); isGo {
 					addStmtGhosts()
 				}
+				if c := fr.contract; c != nil && fr.depth == 0 && len(c.OnCall) > 0 {
+					for _, ef := range c.OnCall[calleeShortName(t.Common())] {
+						keys["G|"+ef.Ghost] = true
+					}
+				}
 				if _, isBuiltin := t.Common().Value.(*ssa.Builtin); !isBuiltin {
 					anyCall = true
 				}
